@@ -61,4 +61,8 @@ theorem gen_fork_wrappers :
     Gen.Fork.ToSeq.delegate = ("pipe.ToSeq", ["ch"]) ∧
     Gen.Fork.StdErr.delegate = ("pipe.StdErr", ["out", "exx"]) := by decide
 
+/-- `pipef()` keeps the error mode when a fork morphism is handed to a `pipe` stage by the wrappers: fail-fast (`pure`)
+becomes `pipe.Lift`, try-and-continue (`try`) becomes `pipe.Try` -/
+theorem gen_pipef_keeps_mode : Gen.Fork.pure_pipef = "pipe.Lift" ∧ Gen.Fork.try_pipef = "pipe.Try" := by decide
+
 end Golem.Props.C09
